@@ -263,18 +263,6 @@ Section XmlProofs.
     apply safe_bind; [exact IH|]. intros; conc.
   Qed.
 
-  Lemma child_attrs_safe fs attrs : forallb (field_wf N) fs = true -> safe (child_attrs soap fs attrs).
-  Proof.
-    intros W. induction attrs as [|[k v] r IH]; simpl; [conc|].
-    destruct (find_field k fs) as [f|] eqn:E; [|exact IH].
-    pose proof (find_field_wf _ _ _ _ W E) as Wf. unfold field_wf in Wf.
-    apply andb_prop in Wf as [_ Wk].
-    destruct (f_kind f); [exact IH|].
-    destruct (f_ty f); try discriminate.
-    useg.
-    apply safe_bind; [apply attr_from_unicode_safe|]. intros; exact IH.
-  Qed.
-
   Lemma freq_check_safe fs seen : safe (freq_check fs seen).
   Proof. induction fs as [|f r IH]; simpl; [conc|]. destruct (occurs_ok _ _ _); [exact IH|conc]. Qed.
 
@@ -311,7 +299,6 @@ End XmlProofs.
 Arguments resolve_class : simpl never.
 Arguments leaf_from_element : simpl never.
 Arguments own_attrs : simpl never.
-Arguments child_attrs : simpl never.
 Arguments freq_check : simpl never.
 Arguments class_fields : simpl never.
 Arguments find_field : simpl never.
@@ -392,14 +379,13 @@ Section XmlTotal.
         apply safe_bind.
         * (* the children *)
           clear E Hs. induction H as [|k r Hk Hr IH]; [conc|].
-          destruct k as [tg nm cattrs tx kk|ok tx].
+          destruct k as [tg nm cat tx kk|ok tx].
           -- destruct (find_field (local_name tg) fs) as [f|] eqn:Ff.
              ++ pose proof (find_field_wf _ _ _ _ Wfs Ff) as Wf. unfold field_wf in Wf.
                 apply andb_prop in Wf as [Wty Wk].
                 apply safe_bind.
                 ** apply Hk. destruct (f_kind f), (f_ty f); auto using ty_wf_top_of_wf.
-                ** intros _ _. apply safe_bind; [apply (child_attrs_safe soap A); auto|].
-                   intros _ _. apply safe_bind; [exact IH|]. intros; conc.
+                ** intros _ _. apply safe_bind; [exact IH|]. intros; conc.
              ++ apply safe_bind; [exact IH|]. intros; conc.
           -- destruct ok.
              ++ useg. exact IH.
